@@ -305,6 +305,7 @@ func appEvents(res *Result, id string) int {
 }
 
 func oracleGate(c *DriveCtx, res *Result) {
+	oracleCustom(res)
 	if res.Spec.Expect == nil {
 		return
 	}
@@ -489,12 +490,18 @@ func oracleGate(c *DriveCtx, res *Result) {
 }
 
 func init() {
-	rule := "case = 1-3 requests in flight drawn from the product {PostInbox, PostOutbox, GetInbox, GetOutbox, ActivityStreams handler} x {Social, Federating, both} x authentication {ok, denied, error} x block {no, yes, error} x method {GET, POST, PUT, HEAD, DELETE} x Content-Type/Accept spelling (7 documented, 6 foreign, 3 ambiguous) x body {valid activity of each handled type, bare object, unknown type, non-JSON, id absent/null/empty/number/object/relative, object absent/empty, target absent/empty}, under a seeded schedule; "
+	rule := "case = 1-3 requests in flight drawn from the product {PostInbox, PostOutbox, GetInbox, GetOutbox, ActivityStreams handler} x {Social, Federating, both} x authentication {ok, denied, error} x block {no, yes, error} x method {GET, POST, PUT, HEAD, DELETE} x Content-Type/Accept spelling (7 documented, 6 foreign, 3 ambiguous) x body {valid activity of each handled type, bare object, unknown type, non-JSON, id absent/null/empty/number/object/relative, object absent/empty, target absent/empty}, under a seeded schedule; every sixth case instead runs the shipped base actor over an application-written DelegateActor (pub.NewCustomActor) whose steps are scripted to succeed, refuse (answering themselves) or fail, and checks that the steps consulted are the documented prefix and the outcome the one the ending step calls for; "
 	register(&PropDef{
 		ID: "C07", Level: "exploration", Engine: "fedsim",
 		Rule: rule + "oracle = per-task trace automaton (no Database/Transport/side-effect callback before authentication succeeded and, for inbox POSTs, before the block check passed) plus 'non-ActivityPub => not handled, nothing touched' and 'disabled protocol => application never consulted'. distinct = distinct event sequences.",
 		QuickCases: 3000, QuickBudgetS: 60, ThoroughBudgetS: 600,
-		Drive:  func(c *DriveCtx, r *Rng, k int) { c.Exec(genGate(r, "C07", k)) },
+		Drive: func(c *DriveCtx, r *Rng, k int) {
+			if k%6 == 5 {
+				c.Exec(genCustom(r, "C07", k))
+				return
+			}
+			c.Exec(genGate(r, "C07", k))
+		},
 		Oracle: oracleGate,
 		Assumptions: []string{"header spellings outside the documented media types (upper case, parameters between type and profile) are classified by the observed 'handled' value; only consistency is required for them",
 			"side-effect callbacks = activity callbacks (wrapped / other / default) and FilterForwarding; the callback getters, body hooks and NewTransport are not side effects"},
@@ -507,6 +514,12 @@ func init() {
 		Drive: func(c *DriveCtx, r *Rng, k int) {
 			if k < len(cp) {
 				c.singleFaultSweep(cp[k].Make, faultKindFor)
+				return
+			}
+			if k%6 == 5 {
+				// an application-written delegate under the shipped base actor, with a single-fault sweep over its steps
+				sp := genCustom(r, "C10", k)
+				c.singleFaultSweep(func() *RunSpec { return sp.Clone() }, func(string) string { return "cb_err" })
 				return
 			}
 			c.Exec(genGate(r, "C10", k))
